@@ -143,6 +143,36 @@ pub fn canon(content: &[u8]) -> Vec<u8> {
   out
 }
 
+/// Line-break-insensitive form used to decide whether an edit changes the signed text at all:
+/// every run of CRs in front of an LF (and at the very end) is dropped, lines joined by CRLF.
+/// (openssl's S/MIME canonicalisation strips all trailing CR/LF of a line, so "\r\r\n" is the
+/// same line end as "\r\n" there; demanding rejection of such an edit would be more than
+/// 'a signature over exactly its content' says.)
+pub fn canon_lenient(content: &[u8]) -> Vec<u8> {
+  let mut out = Vec::with_capacity(content.len() + 64);
+  for (k, line) in content.split(|c| *c == b'\n').enumerate() {
+    if k > 0 {
+      out.extend_from_slice(b"\r\n");
+    }
+    let mut e = line.len();
+    while e > 0 && line[e - 1] == b'\r' {
+      e -= 1;
+    }
+    out.extend_from_slice(&line[..e]);
+  }
+  out
+}
+
+// the XML payload of a signed part: without the optional text/plain MIME header
+fn payload(content_canon: &[u8]) -> &[u8] {
+  let h = b"Content-Type: text/plain\r\n\r\n";
+  if content_canon.starts_with(h) {
+    &content_canon[h.len()..]
+  } else {
+    content_canon
+  }
+}
+
 // =====================================================================================
 // Alterations
 // =====================================================================================
@@ -307,7 +337,8 @@ fn judge_document(
   acc: &mut Acc,
   fx: &Fixture,
   altered: &[u8],
-  content_changed: bool, // rule (i) applies
+  content_changed: bool, // rule (i) / (iii) applies: any acceptance is a violation
+  rule: &str,            // signature text when such a document is accepted
   label: &str,           // for signatures
   with_entry: bool,
   replay: &dyn Fn() -> Value,
@@ -318,7 +349,7 @@ fn judge_document(
     Ok(got) => {
       if content_changed {
         acc.violate(
-          format!("C18/sig:content-alteration-accepted:{label}"),
+          format!("C18/sig:{rule}:{label}"),
           json!({"fixture": fx.name, "returned_len": got.len(), "returned_equals_original": got == &fx.content_canon}),
           replay(),
         );
@@ -401,7 +432,7 @@ fn sig_case(cx: &SigCtx, seed: u64, i: u64, acc: &mut Acc) {
   let inside = edit.pos >= sp.c_start && edit.pos < sp.c_end;
   let content_changed = inside && {
     let rel = Edit { pos: edit.pos - sp.c_start, ..edit.clone() };
-    canon(&rel.apply(&fx.bytes[sp.c_start..sp.c_end])) != fx.content_canon
+    canon_lenient(&rel.apply(&fx.bytes[sp.c_start..sp.c_end])) != canon_lenient(&fx.bytes[sp.c_start..sp.c_end])
   };
   let rname = if inside { "content" } else { REGIONS[if region == 1 { 2 } else { region }] };
   acc.count(&format!("alterations_{rname}"), 1);
@@ -415,7 +446,7 @@ fn sig_case(cx: &SigCtx, seed: u64, i: u64, acc: &mut Acc) {
     json!({"case": case_json(seed, STREAM_SIG, i), "fixture": fx.name, "region": rname, "edit": {"class": edit.class, "pos": edit.pos, "deleted": hex(&fx.bytes[edit.pos..edit.pos + edit.del]), "inserted": hex(&edit.ins)},
       "context": String::from_utf8_lossy(&fx.bytes[edit.pos.saturating_sub(30)..(edit.pos + 30).min(fx.bytes.len())])})
   };
-  judge_document(cx, acc, fx, &altered, content_changed, &label, i % 8 == 0, &replay);
+  judge_document(cx, acc, fx, &altered, content_changed, "content-alteration-accepted", &label, i % 8 == 0, &replay);
   if i < 2 {
     acc.sample(replay(), 2);
   }
@@ -441,13 +472,13 @@ fn b64(data: &[u8]) -> Vec<u8> {
 /// rule (iii): documents that carry no valid Permissions-CA signature over their content
 fn sig_structural(cx: &SigCtx, args: &Args, acc: &mut Acc) {
   let seed = args.seed;
-  let mut reject = |acc: &mut Acc, fx: &Fixture, doc: Vec<u8>, what: String| {
+  let reject = |acc: &mut Acc, fx: &Fixture, doc: Vec<u8>, what: String| {
     acc.evaluations += 1;
     acc.count("rule3_documents", 1);
     acc.distinct.insert(fnv64(&doc));
     let replay = || json!({"case": {"seed": seed, "stream": "structural", "index": what}, "document": String::from_utf8_lossy(&doc)});
     // `content_changed = true`: any acceptance is a violation
-    judge_document(cx, acc, fx, &doc, true, &what, true, &replay);
+    judge_document(cx, acc, fx, &doc, true, "document-without-valid-ca-signature-over-its-content-accepted", &what, true, &replay);
   };
   // (a) signed by a foreign CA that uses the Permissions CA's subject name
   for (name, is_gov) in [("perm_foreign.p7s", false), ("gov_foreign.p7s", true)] {
@@ -470,7 +501,8 @@ fn sig_structural(cx: &SigCtx, args: &Args, acc: &mut Acc) {
   // (b) signature transplanted from another validly signed document
   for a in &cx.valid {
     for b in &cx.valid {
-      if a.name == b.name || a.content_canon == b.content_canon {
+      // (same XML with and without the text/plain header: skipped, the payload is the same)
+      if a.name == b.name || payload(&a.content_canon) == payload(&b.content_canon) {
         continue;
       }
       // a's content under b's PKCS#7 blob, in a's MIME frame ...
@@ -518,8 +550,7 @@ fn sig_structural(cx: &SigCtx, args: &Args, acc: &mut Acc) {
     // the signed part alone (no MIME frame)
     reject(acc, fx, fx.bytes[sp.c_start..sp.c_end].to_vec(), "unsigned:content-part-alone".to_string());
     // a different document put in front of the signed one as an additional part
-    let other = &cx.valid[if fx.is_governance { cx.gov_ok } else { cx.perm_ok }];
-    if other.name != fx.name || true {
+    {
       let evil = String::from_utf8_lossy(&fx.bytes[sp.c_start..sp.c_end]).replace("true", "false").replace("DENY", "ALLOW").replace("Square", "*");
       if canon(evil.as_bytes()) != fx.content_canon {
         // [evil, signed content, signature]
@@ -535,7 +566,7 @@ fn sig_structural(cx: &SigCtx, args: &Args, acc: &mut Acc) {
         acc.evaluations += 1;
         acc.count("rule3_documents", 1);
         let replay = || json!({"case": {"seed": seed, "stream": "structural", "index": "extra-leading-part"}, "document": String::from_utf8_lossy(&d)});
-        judge_document(cx, acc, fx, &d, false, "extra-leading-part", false, &replay);
+        judge_document(cx, acc, fx, &d, false, "", "extra-leading-part", false, &replay);
         // [evil, signature] : the signed part replaced
         let mut d = fx.bytes[..sp.c_start].to_vec();
         d.extend_from_slice(evil.as_bytes());
@@ -747,14 +778,17 @@ fn gen_pattern(rng: &mut Rng, pool: &[String]) -> String {
   }
 }
 
-fn gen_doms(rng: &mut Rng) -> Vec<Dom> {
+fn gen_doms(rng: &mut Rng, dpool: &[u16]) -> Vec<Dom> {
   let n = 1 + rng.below(3);
   (0..n)
     .map(|_| {
-      let a = rng.below(14) as u16;
+      let a = if rng.chance(3, 4) { *rng.pick(dpool) } else { rng.below(14) as u16 };
       match rng.below(10) {
         0..=4 => Dom::Id(a),
-        5 | 6 => Dom::Range(Some(a), Some(a + rng.below(6) as u16)),
+        5 | 6 => {
+          let lo = a.saturating_sub(rng.below(3) as u16);
+          Dom::Range(Some(lo), Some(a + rng.below(4) as u16))
+        }
         7 => Dom::Range(Some(a), None),
         8 => Dom::Range(None, Some(a)),
         _ => {
@@ -774,7 +808,7 @@ fn gen_crit(rng: &mut Rng, topics: &[String], parts: &[String]) -> Crit {
   let t = (0..nt).map(|_| gen_pattern(rng, topics)).collect();
   let p = if rng.chance(5, 6) {
     let np = 1 + rng.below(3);
-    Some((0..np).map(|_| gen_pattern(rng, parts)).collect())
+    Some((0..np).map(|_| if rng.chance(1, 5) { "*".to_string() } else { gen_pattern(rng, parts) }).collect())
   } else {
     None
   };
@@ -816,12 +850,13 @@ fn render_time(rng: &mut Rng, unix: i64) -> String {
 
 const DAY: i64 = 86400;
 
-fn gen_grant(rng: &mut Rng, now: i64, gi: usize, topics: &[String], parts: &[String]) -> Grant {
-  let subject = SUBJECTS[rng.below(4) as usize]; // SUBJECTS[4] never has a grant
+fn gen_grant(rng: &mut Rng, now: i64, gi: usize, topics: &[String], parts: &[String], dpool: &[u16]) -> Grant {
+  // SUBJECTS[4] never has a grant; a repeated subject is the exception
+  let subject = SUBJECTS[if rng.chance(4, 5) { gi } else { rng.below(4) as usize }];
   // windows: valid now (most), expired, not yet valid; every bound at least 2 days from now
-  let (nb, na) = match rng.below(10) {
-    0..=6 => (now - DAY * rng.range(2, 900), now + DAY * rng.range(2, 3000)),
-    7 | 8 => {
+  let (nb, na) = match rng.below(12) {
+    0..=8 => (now - DAY * rng.range(2, 900), now + DAY * rng.range(2, 3000)),
+    9 | 10 => {
       let end = now - DAY * rng.range(2, 400);
       (end - DAY * rng.range(1, 900), end)
     }
@@ -831,7 +866,7 @@ fn gen_grant(rng: &mut Rng, now: i64, gi: usize, topics: &[String], parts: &[Str
     }
   };
   // distinct bounds per grant so that a grant is recognisable by its window
-  let nb = nb - nb.rem_euclid(60) + gi as i64 + rng.below(50) as i64 * 0;
+  let nb = nb - nb.rem_euclid(60) + gi as i64;
   let na = na - na.rem_euclid(60) + 30 + gi as i64;
   let nrules = 1 + rng.below(5);
   let rules = (0..nrules)
@@ -846,7 +881,7 @@ fn gen_grant(rng: &mut Rng, now: i64, gi: usize, topics: &[String], parts: &[Str
       };
       Rule {
         allow: rng.chance(1, 2),
-        domains: gen_doms(rng),
+        domains: gen_doms(rng, dpool),
         publish: sect(rng, 8),
         subscribe: sect(rng, 8),
         relay: sect(rng, 3),
@@ -913,12 +948,11 @@ fn governance_xml(rng: &mut Rng, rules: &[DomRule]) -> String {
   let kinds = ["ENCRYPT_WITH_ORIGIN_AUTHENTICATION", "SIGN_WITH_ORIGIN_AUTHENTICATION", "ENCRYPT", "SIGN", "NONE"];
   let basic = ["ENCRYPT", "SIGN", "NONE"];
   let b = |rng: &mut Rng, v: bool| -> &'static str {
-    match (v, rng.below(4)) {
+    // the xs:boolean literals
+    match (v, rng.below(3)) {
       (true, 0) => "1",
-      (true, 1) => "TRUE",
       (true, _) => "true",
       (false, 0) => "0",
-      (false, 1) => "FALSE",
       (false, _) => "false",
     }
   };
@@ -1200,7 +1234,8 @@ fn expect(w: &World, subject: &str, domain: u16, topic: &str, parts: &[String], 
     }
     let by = match flags {
       Some((r, wr)) if !r && !wr => "governance-unprotected".to_string(),
-      Some((true, true)) => format!("publish:{}+subscribe:{}", pb.by, sb.by),
+      Some((true, true)) if pb.by == sb.by => pb.by.to_string(),
+      Some((true, true)) => format!("publish-{}/subscribe-{}", pb.by, sb.by),
       Some(_) => "governance-half-protected".to_string(),
       None => "no-topic-rule".to_string(),
     };
@@ -1218,20 +1253,22 @@ fn decision_case(seed: u64, now: i64, i: u64, acc: &mut Acc) {
   let twin: String = topics[0].chars().map(|c| if c.is_ascii_lowercase() { c.to_ascii_uppercase() } else { c.to_ascii_lowercase() }).collect();
   topics.push(twin);
   let parts: Vec<String> = (0..4).map(|_| gen_name(&mut rng)).collect();
+  let dpool: Vec<u16> = (0..3).map(|_| rng.below(14) as u16).collect();
   let ng = 1 + rng.below(4) as usize;
-  let grants: Vec<Grant> = (0..ng).map(|gi| gen_grant(&mut rng, now, gi, &topics, &parts)).collect();
+  let grants: Vec<Grant> = (0..ng).map(|gi| gen_grant(&mut rng, now, gi, &topics, &parts, &dpool)).collect();
   // governance: optional specific domain rule(s), then a catch-all domain rule
   let mut gov = vec![];
   let gen_topic_rules = |rng: &mut Rng| -> Vec<TopicRule> {
+    // XSD: at least one topic_rule
     let n = rng.below(4);
-    let mut v: Vec<TopicRule> = (0..n).map(|_| TopicRule { expr: gen_pattern(rng, &topics), read: rng.chance(1, 2), write: rng.chance(1, 2) }).collect();
-    if rng.chance(5, 6) {
-      v.push(TopicRule { expr: "*".into(), read: rng.chance(2, 3), write: rng.chance(2, 3) });
+    let mut v: Vec<TopicRule> = (0..n).map(|_| TopicRule { expr: gen_pattern(rng, &topics), read: rng.chance(2, 3), write: rng.chance(2, 3) }).collect();
+    if v.is_empty() || rng.chance(5, 6) {
+      v.push(TopicRule { expr: "*".into(), read: rng.chance(3, 4), write: rng.chance(3, 4) });
     }
     v
   };
   if rng.chance(2, 5) {
-    gov.push(DomRule { domains: gen_doms(&mut rng), topic_rules: gen_topic_rules(&mut rng) });
+    gov.push(DomRule { domains: gen_doms(&mut rng, &dpool), topic_rules: gen_topic_rules(&mut rng) });
   }
   gov.push(DomRule {
     domains: vec![if rng.chance(1, 2) { Dom::Range(Some(0), None) } else { Dom::Range(Some(0), Some(65535)) }],
@@ -1267,7 +1304,7 @@ fn decision_case(seed: u64, now: i64, i: u64, acc: &mut Acc) {
   let mut nontrivial = false;
   for _q in 0..12 {
     let subject = if rng.chance(1, 12) { SUBJECTS[4] } else { w.grants[rng.below(w.grants.len() as u64) as usize].subject };
-    let domain = rng.below(15) as u16;
+    let domain = if rng.chance(4, 5) { *rng.pick(&dpool) } else { rng.below(15) as u16 };
     let topic = if rng.chance(5, 6) { rng.pick(&topics).clone() } else { gen_name(&mut rng) };
     let route = rng.below(10);
     // 0..=5 check_entity with partitions, 6 check_entity without, 7..=9 public functions
@@ -1309,6 +1346,10 @@ fn decision_case(seed: u64, now: i64, i: u64, acc: &mut Acc) {
       if p.mask.count_ones() > 1 && ex.mask.count_ones() > 1 && w.gov_flags(domain, &topic).map(|(r, wr)| if kind == 0 { wr } else { r }) == Some(true) {
         if let (Some(spec), Ok((b, _))) = (p.spec_reading, &got) {
           acc.count(if spec == *b { "unjudged_partition_corner_agrees_with_spec_text" } else { "unjudged_partition_corner_differs_from_spec_text" }, 1);
+          if spec != *b {
+            acc.sample(json!({"not_judged_example": "partition corner where the implementation differs from the spec's full text (allow rule: all partitions, deny rule: any partition)", "implementation_granted": b, "spec_text_grants": spec,
+              "query": {"subject": subject, "domain": domain, "topic": topic, "partitions": qparts, "entity": KIND[kind as usize]}, "permissions_xml": perm_text}), 3);
+          }
         }
       }
     }
@@ -1336,8 +1377,8 @@ fn decision_case(seed: u64, now: i64, i: u64, acc: &mut Acc) {
     acc.count("queries_judged", 1);
     acc.count(&format!("judged_through_{}", if which.is_some() { "public_functions" } else if qparts.is_empty() { "check_entity_no_partitions" } else { "check_entity_with_partitions" }), 1);
     acc.count(if want { "judged_allowed" } else { "judged_denied" }, 1);
-    let by = ex.by.split('+').next().unwrap_or("").split(':').next().unwrap_or("").to_string();
-    acc.count(&format!("decided_by_{}", if ex.by.contains("rule") && !ex.by.contains("no-topic-rule") { "rule" } else { by.as_str() }), 1);
+    let by = ex.by.split('+').next().unwrap_or("").to_string();
+    acc.count(&format!("decided_by_{}", if ex.by.replace("no-topic-rule", "").contains("rule") { "rule" } else { by.as_str() }), 1);
     if ex.overlapping {
       acc.count("decided_by_first_of_conflicting_rules", 1);
       nontrivial = true;
@@ -1423,7 +1464,7 @@ pub fn run_c18(args: &Args) -> i32 {
     args,
     "signature leg: each case = (committed S/MIME fixture, region found by the harness's MIME walker {mime-head, content, part-boundary, pkcs7-base64, tail}, one single-byte alteration of class {flip, replace, delete, insert, case, white-space/line-break}) at a sampled position, run through SignedDocument::from_bytes + verify_signature (every 8th also through validate_local_permissions / validate_remote_permissions); plus the fixed rule-(iii) set (foreign CA, wrong CA certificate, transplanted signatures between all fixture pairs, unsigned/truncated/re-framed documents); distinct = hash of (fixture, edit). decision leg: each case = random governance (1-2 domain rules, 0-5 topic rules) + permissions document (1-4 grants, 1-5 allow/deny rules, domain values/ranges, topic/partition patterns from {literal,*,?,[abc],[a-c],[!x]}, validity windows around now in three xsd:dateTime spellings, default ALLOW/DENY) rendered to XML, parsed by the real parsers, 12 queries (subject, domain, topic, 0-3 partitions, writer/reader/topic, through check_entity or check_create_*/check_remote_*) and 4 find_grant queries with an injected clock, compared with the reference evaluator; distinct/non-trivial = document pair with at least one judged query decided by a rule or by the governance (not by the default)",
   );
-  rep.assume("rule (i) is applied to edits strictly inside the signed MIME part that change its canonical (CRLF) form; LF<->CRLF re-encodings of the signed part and every edit outside it (including the line break that belongs to the following delimiter) fall under rule (ii): acceptance is allowed iff the returned document is byte-identical to the originally signed content");
+  rep.assume("rule (i) is applied to edits strictly inside the signed MIME part that change its text when line ends are compared leniently (any run of CRs before an LF is one line end, as in openssl's S/MIME canonicalisation); pure line-end re-encodings of the signed part, signature transplants between documents with the same XML payload, and every edit outside the signed part (including the line break that belongs to the following delimiter) fall under rule (ii): acceptance is allowed iff the returned document is byte-identical to the originally signed content");
   rep.assume("rejecting a valid document is not judged (the statement says 'accepted only if'); the run is inconclusive unless the unaltered fixtures are accepted and the harness's MIME walker extracts the same content as the implementation returns");
   rep.assume("an Err (or panic) of a check function counts as 'not allowed'; panics are counted, not judged here");
   rep.assume("not judged (verdict set of the reference evaluator is not a singleton): entity with an empty partition list against a rule whose partition expressions do not match the empty string; rule without a <partitions> element against an entity with partitions; entity with several partitions of which only some match (spec: allow rules need all, deny rules need any; implementation: all for both); subject with several currently valid grants that disagree; topic matched by no governance topic rule unless the permissions deny as well; unprotected topic when the subject has no currently valid grant (implementation returns an error); remote reader admitted through a relay permission; topic entities unless every reading (either/both access kinds unprotected, publish-or-subscribe[-or-relay] / publish-and-subscribe) agrees");
